@@ -28,6 +28,9 @@ RULES = [  # (regex, replacements)  applied to code with comments stripped posit
 ]
 
 
+SKIP_GENERICS = os.environ.get('MUT_SKIP_GENERICS') == '1'
+
+
 def code_spans(src):
     """yield (start, end) of non-comment, non-string, non-test code"""
     k = src.find('#[cfg(test)]')
@@ -73,6 +76,8 @@ def mutants(path):
                 line = src[line_start:src.find('\n', a + m.start())]
                 if re.match(r'\s*(#\[|use |pub use |mod |//|///|assert|debug_assert)', line):
                     continue
+                if SKIP_GENERICS and m.group(0) in '<>' and not (seg[m.start() - 1:m.start()] == ' ' and seg[m.end():m.end() + 1] == ' '):
+                    continue   # rustfmt puts spaces around comparisons; `<`/`>` without them are generic brackets (never compile)
                 for r in reps:
                     res.append((a + m.start(), a + m.end(), m.group(0), r))
     res.sort()
